@@ -1050,3 +1050,162 @@ Example default_revoke_leaves_dependents :
   has_privilege s' "R2" "T" (PSelect None) = true /\          (* granted by R1 *)
   snd (step s (ORevoke false [PSelect None] OTable "T" ["R1"] CRestrict)) = RErr EDependentPrivileges.
 Proof. vm_compute. repeat split. Qed.
+
+(** * REVOKE GRANT OPTION FOR ... CASCADE returns when no delegation cycle is reachable *)
+Lemma fold_kill_some : forall obj p (casc : list grant -> string -> option (list grant)),
+  (forall G1 d G2, casc G1 d = Some G2 -> map ekey G2 = map ekey G1) ->
+  forall ds G,
+  (forall d G'', In d ds -> map ekey G'' = map ekey G -> casc G'' d <> None) ->
+  fold_opt (kill_then casc obj p true) ds G <> None.
+Proof.
+  intros obj p casc Hk. induction ds as [|d ds IH]; intros G Hd; [discriminate|].
+  cbn [fold_opt]. unfold kill_then at 1.
+  destruct (casc (remove_grants obj d p true G) d) as [G1|] eqn:E1.
+  - apply IH. intros d' G'' Hin E. apply Hd; [right; exact Hin|].
+    rewrite E. rewrite (Hk _ _ _ E1). apply remove_option_ekeys.
+  - exfalso. apply (Hd d (remove_grants obj d p true G)); [left; reflexivity | apply remove_option_ekeys | exact E1].
+Qed.
+
+Lemma NoDup_incl_le : forall (l l' : list string), NoDup l -> incl l l' -> List.length l <= List.length l'.
+Proof. intros. apply NoDup_incl_length; assumption. Qed.
+
+Lemma cascade_option_acyclic_aux : forall obj p (nodes : list string) fuel G x (path : list string),
+  (forall a b, edge obj G p a b -> In b nodes) ->
+  In x nodes -> incl path nodes -> NoDup path -> ~ In x path ->
+  (forall z, In z path -> reach obj G p z x) ->
+  (forall z, z = x \/ reach obj G p x z -> ~ reach obj G p z z) ->
+  List.length nodes <= List.length path + fuel ->
+  revoke_cascade fuel obj p true G x <> None.
+Proof.
+  intros obj p nodes. induction fuel as [|f IH]; intros G x path Hn Hx Hp Hnd Hxp Hr Hac Hlen.
+  - exfalso.
+    assert (L : List.length (x :: path) <= List.length nodes).
+    { apply NoDup_incl_le; [constructor; assumption|]. intros z [E|Hz]; [subst; exact Hx | apply Hp; exact Hz]. }
+    cbn in L. lia.
+  - cbn [revoke_cascade]. apply fold_kill_some; [intros G1 d G2; apply cascade_option_ekeys|].
+    intros y G'' Hy E. apply deps_spec in Hy.
+    assert (Tr : forall a b, reach obj G p a b -> reach obj G'' p a b) by (intros a b; apply reach_ekeys; symmetry; exact E).
+    assert (Tr' : forall a b, reach obj G'' p a b -> reach obj G p a b) by (intros a b; apply reach_ekeys; exact E).
+    apply (IH G'' y (x :: path)).
+    + intros a b Hab. apply (Hn a b). apply edge_ekey. rewrite <- E. apply edge_ekey. exact Hab.
+    + eapply Hn. exact Hy.
+    + intros z [Ez|Hz]; [subst; exact Hx | apply Hp; exact Hz].
+    + constructor; assumption.
+    + intros [Ey|Hyp].
+      * subst y. apply (Hac x (or_introl eq_refl)). apply reach_one. exact Hy.
+      * apply (Hac y); [right; apply reach_one; exact Hy|].
+        eapply reach_step; [apply Hr; exact Hyp | exact Hy].
+    + intros z [Ez|Hz]; apply Tr.
+      * subst z. apply reach_one. exact Hy.
+      * eapply reach_step; [apply Hr; exact Hz | exact Hy].
+    + intros z Hz. intro C. apply Tr' in C. apply (Hac z); [|exact C]. right.
+      destruct Hz as [Ez|Hz]; [subst z; apply reach_one; exact Hy|].
+      eapply reach_cons; [exact Hy | apply Tr'; exact Hz].
+    + cbn. lia.
+Qed.
+
+(** with the model's stack budget (one frame per grant, plus one) *)
+Theorem cascade_option_acyclic_terminates : forall obj p G x,
+  (forall z, z = x \/ reach obj G p x z -> ~ reach obj G p z z) ->
+  revoke_cascade (cascade_fuel G) obj p true G x <> None.
+Proof.
+  intros obj p G x Hac.
+  apply (cascade_option_acyclic_aux obj p (x :: map g_grantee G) (cascade_fuel G) G x []).
+  - intros a b [g [Hg [_ [_ [_ Hb]]]]]. right. rewrite <- Hb. apply in_map. exact Hg.
+  - left. reflexivity.
+  - intros z [].
+  - constructor.
+  - intros [].
+  - intros z [].
+  - exact Hac.
+  - unfold cascade_fuel. cbn. rewrite map_length. lia.
+Qed.
+
+(** ... and never returns when one is (generalises [cascade_option_cycle_diverges] from "on a cycle" to
+    "reaches a cycle") *)
+Theorem cascade_option_cycle_reachable_diverges : forall obj p fuel G x z,
+  z = x \/ reach obj G p x z -> reach obj G p z z -> revoke_cascade fuel obj p true G x = None.
+Proof.
+  intros obj p. induction fuel as [|f IH]; intros G x z Hz C; [reflexivity|].
+  destruct Hz as [Ez|Hz]; [subst z; apply cascade_option_cycle_diverges; exact C|].
+  cbn [revoke_cascade]. destruct (reach_first _ _ _ _ _ Hz) as [y [Ey Hy]].
+  eapply (fold_kill_none obj p _ y).
+  - intros G1 d G2. apply cascade_option_ekeys.
+  - apply deps_spec. exact Ey.
+  - intros G'' E. apply (IH G'' y z).
+    + destruct Hy as [Hy|Hy]; [left; symmetry; exact Hy | right; eapply reach_ekeys; [symmetry; exact E | exact Hy]].
+    + eapply reach_ekeys; [symmetry; exact E | exact C].
+Qed.
+
+Lemma ekeys_length : forall G H, map ekey G = map ekey H -> List.length G = List.length H.
+Proof. intros G H E. rewrite <- (map_length ekey G), <- (map_length ekey H), E. reflexivity. Qed.
+
+(** the whole statement: REVOKE GRANT OPTION FOR ... CASCADE returns when no named (grantee, privilege) pair
+    reaches a delegation cycle, and overflows the stack as soon as one does *)
+Lemma revoke_fold_option_some : forall fuel obj prs G,
+  (forall ge p G'', In (ge, p) prs -> map ekey G'' = map ekey G -> revoke_cascade fuel obj p true G'' ge <> None) ->
+  fold_opt (revoke_one fuel obj true CCascade) prs G <> None.
+Proof.
+  intros fuel obj. induction prs as [|[ge p] prs IH]; intros G H; [discriminate|].
+  cbn [fold_opt revoke_one]. unfold kill_then.
+  destruct (revoke_cascade fuel obj p true (remove_grants obj ge p true G) ge) as [G1|] eqn:E1.
+  - apply IH. intros ge' p' G'' Hin E. apply H; [right; exact Hin|].
+    rewrite E. rewrite (cascade_option_ekeys _ _ _ _ _ _ E1). apply remove_option_ekeys.
+  - exfalso. apply (H ge p (remove_grants obj ge p true G)); [left; reflexivity | apply remove_option_ekeys | exact E1].
+Qed.
+
+Theorem revoke_option_acyclic_never_crashes : forall s privs ot obj grantees,
+  (forall ge p z, In ge grantees -> In p (expand privs ot) ->
+     z = ge \/ reach obj (st_grants s) p ge z -> ~ reach obj (st_grants s) p z z) ->
+  snd (exec_revoke s true privs ot obj grantees CCascade) <> RCrash.
+Proof.
+  intros s privs ot obj grantees Hac. unfold exec_revoke.
+  destruct (revoke_object_check s ot obj); [discriminate|].
+  destruct (negb (all_roles_exist s grantees)); [discriminate|].
+  cbn [andb].
+  destruct (fold_opt _ _ _) as [G'|] eqn:EF; [discriminate|]. exfalso.
+  revert EF. apply revoke_fold_option_some. intros ge p G'' Hin E.
+  apply in_pairs_pairs in Hin as [Hg Hp].
+  assert (EL : cascade_fuel (st_grants s) = cascade_fuel G'').
+  { unfold cascade_fuel. rewrite (ekeys_length _ _ E). reflexivity. }
+  rewrite EL. apply cascade_option_acyclic_terminates. intros z Hz C.
+  apply (Hac ge p z Hg Hp).
+  - destruct Hz as [Hz|Hz]; [left; exact Hz | right; eapply reach_ekeys; [exact E | exact Hz]].
+  - eapply reach_ekeys; [exact E | exact C].
+Qed.
+
+Lemma revoke_fold_none_reach : forall fuel obj prs G ge p z,
+  In (ge, p) prs -> z = ge \/ reach obj G p ge z -> reach obj G p z z ->
+  fold_opt (revoke_one fuel obj true CCascade) prs G = None.
+Proof.
+  intros fuel obj. induction prs as [|[ge' p'] prs IH]; intros G ge p z Hin Hz C; [contradiction|].
+  cbn [fold_opt revoke_one].
+  destruct (kill_then (revoke_cascade fuel obj p' true) obj p' true G ge') as [G1|] eqn:E1; [|reflexivity].
+  unfold kill_then in E1.
+  assert (Tr : forall G'' a b, map ekey G'' = map ekey G -> reach obj G p a b -> reach obj G'' p a b)
+    by (intros G'' a b E; apply reach_ekeys; symmetry; exact E).
+  destruct Hin as [Hd|Hin].
+  - inversion Hd; subst. rewrite (cascade_option_cycle_reachable_diverges obj p fuel _ ge z) in E1; [discriminate| |].
+    + destruct Hz as [Hz|Hz]; [left; exact Hz | right; apply Tr; [apply remove_option_ekeys | exact Hz]].
+    + apply Tr; [apply remove_option_ekeys | exact C].
+  - apply cascade_option_ekeys in E1.
+    assert (E : map ekey G1 = map ekey G) by (rewrite E1; apply remove_option_ekeys).
+    apply (IH G1 ge p z Hin).
+    + destruct Hz as [Hz|Hz]; [left; exact Hz | right; apply Tr; assumption].
+    + apply Tr; assumption.
+Qed.
+
+Theorem revoke_option_cascade_reachable_cycle_crashes : forall s privs ot obj grantees ge p z,
+  revoke_object_check s ot obj = None -> all_roles_exist s grantees = true ->
+  In ge grantees -> In p (expand privs ot) ->
+  z = ge \/ reach obj (st_grants s) p ge z -> reach obj (st_grants s) p z z ->
+  step s (ORevoke true privs ot obj grantees CCascade) = (s, RCrash).
+Proof.
+  intros s privs ot obj grantees ge p z H1 H2 Hg Hp Hz C. cbn [step]. unfold exec_revoke. rewrite H1, H2. cbn [negb andb].
+  rewrite (revoke_fold_none_reach _ obj _ _ ge p z); [reflexivity| |exact Hz|exact C]. apply in_pairs_pairs. tauto.
+Qed.
+
+Example ex_acyclic_option_cascade :
+  let s := exec (init_state ["T"] ["public"]) (firstn 8 ex_history) in
+  snd (step s (ORevoke true [PSelect None] OTable "T" ["R1"] CCascade)) = ROk.
+Proof. vm_compute. reflexivity. Qed.
